@@ -109,7 +109,7 @@ def manifest():
             "guard": "verif",
             "enable": "go test -tags verif -overlay=<generated from /verif/harness/overlay> -c (drivers are added to /repo packages through the overlay; in /repo only internal/verifhook and its Point/Value call sites exist, no-ops without the tag)",
             "baseline_off_cmd": "cd /repo && go test -vet=off -count=1 -timeout 25m ./...",
-            "source_commits": ["0f5976a3d", "653173447"],
+            "source_commits": ["0f5976a3d", "653173447", "b7b0d8f15"],
             "add_only": True,
         },
         "engines": [{"name": n, "path": "engines/%s.py" % n, "serves_properties": sorted(p),
